@@ -68,14 +68,25 @@ def make_future(kind):
         f.set_running_or_notify_cancel()
     elif kind == "pending":
         pass
+    elif kind == "sysexit":       # a task (or a library it calls) ended in sys.exit(): a BaseException, not an Exception
+        f.set_exception(SystemExit(BASE_CODES[kind]))
+    elif kind == "kbint":
+        f.set_exception(KeyboardInterrupt(BASE_CODES[kind]))
     else:
         f.set_exception(KeyError(kind))
     return f
 
 
+BASE_CODES = {"sysexit": 101, "kbint": 102}      # identities of the BaseException failures in the model's event alphabet
+
+
 def verdict_of(exc):
     if exc is None:
         return "ok"
+    if isinstance(exc, SystemExit):
+        return exc.code
+    if isinstance(exc, KeyboardInterrupt) and exc.args:
+        return exc.args[0]
     if isinstance(exc, KeyError):
         return exc.args[0]
     if isinstance(exc, cf.CancelledError):
@@ -127,7 +138,7 @@ def unit_case(ctx, events, body):
     nontrivial = body is not None or any(e != "ok" for e in events)
     ctx.case(("unit", tuple(events), body), nontrivial)
     if ctx.driver_ok:
-        q = {"op": "sched.wait", "events": events}
+        q = {"op": "sched.wait", "events": [BASE_CODES.get(e, e) for e in events]}
         if body is not None:
             q["body"] = body
         model = ctx.driver.ask(q)["verdict"]
@@ -165,7 +176,7 @@ def pool_case(ctx, outcomes, workers, work, rng, delays=None):
     try:
         with core.ParallelWorkManager(workers) as pwm:
             for i, o in enumerate(outcomes):
-                kind = o if o in ("ok", "die") else "raise"
+                kind = o if o in ("ok", "die", "sysexit", "kbint") else "raise"
                 pwm.submit(c14_tasks.task, kind, o if kind == "raise" else i, str(marker),
                            delays[i] if delays else rng.choice([0, 0.01, 0.05]))
     except BaseException as e:  # noqa: BLE001
@@ -186,7 +197,7 @@ def pool_case(ctx, outcomes, workers, work, rng, delays=None):
         except Exception:  # noqa: BLE001
             pass
         return
-    raised = {o for o in outcomes if o not in ("ok", "die")}
+    raised = {BASE_CODES.get(o, o) for o in outcomes if o not in ("ok", "die")}
     died = "die" in outcomes
     allowed = set(raised) | ({"RuntimeError"} if died else set()) if bad else {"ok"}
     if workers == 0:
@@ -205,7 +216,7 @@ def pool_case(ctx, outcomes, workers, work, rng, delays=None):
         seen = set()
         for _ in range(12):
             sched = [rng.randrange(8) for _ in outcomes]
-            r = ctx.driver.ask({"op": "sched.command", "outcomes": outcomes, "w": workers, "sched": sched})
+            r = ctx.driver.ask({"op": "sched.command", "outcomes": [BASE_CODES.get(o, o) for o in outcomes], "w": workers, "sched": sched})
             seen.add(r["verdict"])
         if bad and "ok" in seen:
             ctx.disagree("model reports ok for a failing outcome list", inp, sorted(map(str, seen)), got)
@@ -276,14 +287,14 @@ def run(ctx):
     rng = ctx.rng
     work = common.scratch_dir("c14-")
     try:
-        alphabet = ["ok", 7, "broken", "cancelled"]
+        alphabet = ["ok", 7, "broken", "cancelled", "sysexit"]
         maxlen = 5 if ctx.thorough else 4
         for n in range(0, maxlen + 1):
             for ev in itertools.product(alphabet, repeat=n):
                 unit_case(ctx, list(ev), None)
         for _ in range(300 if ctx.thorough else 100):
             n = rng.randrange(1, 12)
-            ev = [rng.choice(["ok"] * 6 + [rng.randrange(1, 9), "broken", "cancelled"]) for _ in range(n)]
+            ev = [rng.choice(["ok"] * 6 + [rng.randrange(1, 9), "broken", "cancelled", "sysexit", "kbint"]) for _ in range(n)]
             unit_case(ctx, ev, rng.choice([None, None, None, rng.randrange(1, 9)]))
         ctx.exhaustive_unit = True
         # real pools
@@ -291,7 +302,7 @@ def run(ctx):
         nmax = 6 if ctx.thorough else 4
         for n in range(1, nmax + 1):
             for pos in range(n):
-                for kind in ("die", 5):
+                for kind in ("die", 5, "sysexit", "kbint"):
                     o = ["ok"] * n
                     o[pos] = kind
                     pools.append((o, rng.choice([1, 2, 3, 4])))
@@ -301,7 +312,7 @@ def run(ctx):
         pools.append((["ok", "ok", 6], 0))
         if not ctx.thorough:
             rng.shuffle(pools)
-            pools = pools[:10] + [(["ok"] * 4, 2), (["ok", "ok", 6], 0)]
+            pools = pools[:14] + [(["ok"] * 4, 2), (["ok", "ok", 6], 0), (["ok", "sysexit", "ok"], 2), (["ok", "ok", "kbint"], 1)]
         for o, w in pools:
             pool_case(ctx, o, w, work, rng)
         # a task raises while many are still queued, and shortly afterwards another worker dies: cancelled futures of a
